@@ -22,6 +22,7 @@ var repoDir = func() string {
 	}
 	return "/repo"
 }()
+
 const modPath = "mvdan.cc/sh/v3"
 
 // ProgramCtx is the loaded program shared by all workers.
